@@ -656,14 +656,8 @@ func (t *twin) both(what string, local bool, wouldDup *bool, fn0 func(n *core.No
 		// Halloween effect: the filtered update iterates the index it is modifying; a document whose
 		// new value still satisfies the filter is met (and updated, and reported) a second time
 		if t.curFilter != nil && strings.Join(dedupSorted(oa.ids), ",") == strings.Join(ob.ids, ",") {
-			idx, _ := t.liveIndexFields()
-			for _, l := range t.curFilter.Leaves() {
-				if l.Leaf.Cmp == "_in" && idx[l.Leaf.Field] && hasRepeat(l.Leaf.Val) {
-					// the selection itself returns the document twice (repeated value in the _in list)
-					t.r.Violate("index/_in-with-repeated-value/duplicate-rows", fmt.Sprintf("the filtered write met one document twice on the indexed database: %s: indexed %v, index-free %v", what, shortIDs(oa.ids), shortIDs(ob.ids)), t.detail(nil))
-					return oa, true
-				}
-			}
+			// (a repeated value in an _in list no longer fetches a document twice since fix 06978ea, so a
+			// document met twice by a filtered write is always the Halloween effect)
 			t.r.Violate("write/update-with-filter/document-visited-twice-through-the-index-being-updated", fmt.Sprintf("the filtered update applied its patch twice to one document on the indexed database: %s: indexed %v, index-free %v", what, shortIDs(oa.ids), shortIDs(ob.ids)), t.detail(nil))
 			return oa, true
 		}
